@@ -112,8 +112,12 @@ class Driver:
             bk, ck = self.demo_kinds
             changes = None
             if ck == 'file':
+                # (DemoStorage.pack must ask for gc=False itself: a
+                # collection that sees one layer only would drop objects
+                # referenced from the base)
                 changes = FileStorage('/sim/Changes.fs', create=create,
-                                      pack_gc=False)
+                                      pack_gc=self.opts.get(
+                                          'changes_pack_gc', False))
             elif ck == 'mapping':
                 from ZODB.MappingStorage import MappingStorage
                 changes = MappingStorage('changes')
